@@ -39,7 +39,7 @@ def native_run(pid, harness_files, file_of_harness, tests, tag="native"):
         paths.append(p)
     gen.make_scratch(scratch, paths, model_hashmap=False)
     env = dict(kani.ENV)
-    env["CARGO_TARGET_DIR"] = os.path.join(CACHE, "kani", "_native")
+    env["CARGO_TARGET_DIR"] = os.path.join(CACHE, "kani", "_" + tag)
     env["RUST_BACKTRACE"] = "0"
     nfail = 0
     tail = ""
@@ -62,7 +62,7 @@ def native_run(pid, harness_files, file_of_harness, tests, tag="native"):
     return nfail, len(tests), tail
 
 
-def confirm(pid, n, h, scratch, tdir, logdir):
+def confirm(pid, n, h, scratch, tdir, logdir, tag="native"):
     """Re-run the failing harness with concrete playback, replay natively. -> (confirmed, replay_path, note)"""
     os.makedirs(logdir + "/playback", exist_ok=True)
     r = kani.run_harness(scratch, tdir, n, logdir + "/playback", 3600, 40,
@@ -81,7 +81,7 @@ def confirm(pid, n, h, scratch, tdir, logdir):
         p = os.path.join(scratch, "src", os.path.dirname(tgt), "kh_" + base)
         if os.path.exists(p):
             files[base] = open(p).read()
-    nfail, nrun, tail = native_run(pid, files, h.file, tests)
+    nfail, nrun, tail = native_run(pid, files, h.file, tests, tag=tag)
     rdir = os.path.join(VERIF, "replays", pid)
     os.makedirs(rdir, exist_ok=True)
     path = os.path.join(rdir, h.fn + ".json")
